@@ -15,20 +15,20 @@ Theorem C08_pattern_correct :
 Proof. exact pattern_correct. Qed.
 Print Assumptions C08_pattern_correct.
 
-(* ... and a pattern compile_pattern accepts ([accepted]: no `p :as _`, no or-pattern with fewer than two
+(* ... and a pattern compile_pattern accepts ([accepted]: no `p :as n` with n mangling to "_", no or-pattern with fewer than two
    alternatives, no value pattern without an attribute -- its three syntax errors) compiles to a node that
    compile() accepts, given what compile_pattern leaves unchecked ([hwf]: at most one star per sequence, names
-   that do not mangle to "_") *)
+   of captures, #* and #** that do not mangle to "_") *)
 Theorem C08_compile_valid : forall (mangle : string -> string) h b,
-  accepted h = true -> hwf mangle b h = true -> valid b (compile mangle h) = true.
+  accepted mangle h = true -> hwf mangle b h = true -> valid b (compile mangle h) = true.
 Proof. exact compile_valid_all. Qed.
 Print Assumptions C08_compile_valid.
 
 (* conversely the three syntax errors lose nothing: a pattern compile_pattern rejects would have compiled to
-   a node compile() rejects (commits 61b21a1, d2a83e6, 8cfcf87 turned those ValueError/SyntaxError of compile()
+   a node compile() rejects (commits 61b21a1, d2a83e6, 8cfcf87, d26852d turned those ValueError/SyntaxError of compile()
    into HySyntaxError) *)
-Theorem C08_rejected_would_be_invalid : forall (mangle : string -> string) h b, mangle as_forbidden_name = "_" ->
-  accepted h = false -> valid b (compile mangle h) = false.
+Theorem C08_rejected_would_be_invalid : forall (mangle : string -> string) h b,
+  accepted mangle h = false -> valid b (compile mangle h) = false.
 Proof. exact rejected_would_be_invalid_all. Qed.
 Print Assumptions C08_rejected_would_be_invalid.
 
@@ -70,7 +70,7 @@ Print Assumptions C08_match_none.
 Example C08_example_wellformed :
   let h := (HAs (HSeq [HSym "x"; HStar "r"; HMap [LStr "k"] [HOr [HLit (LInt 1); HSym "None"]] (Some "m");
                                     HClass ["C"] [HSym "y"] ["q"] [HKeyword "a-b"]; HValue ["m"; "K"]]) "w") in
-  accepted h = true /\ hwf t_mangle false h = true.
+  accepted t_mangle h = true /\ hwf t_mangle false h = true.
 Proof. vm_compute. split; reflexivity. Qed.
 Example C08_example_rejected :
   compile_checked t_mangle (HSeq [HOr [HLit (LInt 1)]]) = None
